@@ -17,6 +17,7 @@ from flexstack.geonet.service_access_point import HeaderType, GeoBroadcastHST
 from flexstack.btp.service_access_point import BTPDataIndication
 from flexstack.facilities.local_dynamic_map.factory import LDMFactory
 from flexstack.facilities.local_dynamic_map.ldm_classes import Location
+from flexstack.facilities.local_dynamic_map import ldm_classes as LC
 
 LEVEL = "model_checking"
 
@@ -65,10 +66,21 @@ class DenHarness:
             lat, lon = POSITIONS[(self.pos_idx + k) % len(POSITIONS)]
             before = len(s.threads)
             self.trigger_times.append(s.now)
-            if self.kind == "eva":
+            kind = self.kind if self.kind != "mix" else ("crw", "eva", "crw")[k % 3]
+            n0 = len(self.btp.requests)
+            if kind == "eva":
                 sv = self.svcs[0 if self.shared else k]
                 sv.trigger_denm_sending({"lat": lat, "lon": lon, "altHAE": 12.0})
-            self.event_threads.append([t.id for t in s.threads[before:]])
+                self.event_threads.append(("eva", [t.id for t in s.threads[before:]]))
+            else:
+                # collision-risk warning: a single DENM sent synchronously by the application thread
+                pos = LC.ReferencePosition(latitude=int(lat * 10000000), longitude=int(lon * 10000000),
+                                           position_confidence_ellipse=LC.PositionConfidenceEllipse(4095, 4095, 3601),
+                                           altitude=LC.Altitude(1200, "unavailable"))
+                req = DENRequest.with_collision_risk_warning(LC.TimestampIts(int((s.now - 1072915200 + 5) * 1000)), pos)
+                self.den.denm_transmission_management.send_collision_risk_warning_denm(req)
+                me = s.me().id
+                self.event_threads.append(("crw", [i for i in range(n0, len(self.btp.requests)) if self.btp.requests[i][1] == me]))
 
     def actors(self):
         return [("app", self._app)]
@@ -92,7 +104,20 @@ class DenHarness:
             return [dict(kind="undecodable_denm", exc=repr(e)[:100], **base)]
         expect_n = math.ceil(self.duration / self.interval) if self.duration > 0 else 0
         action_ids = {}
-        for k, tids in enumerate(self.event_threads):
+        for k, (ekind, tids) in enumerate(self.event_threads):
+            if ekind == "crw":
+                mine = [(t, req, d) for i, (t, tid, req, d) in enumerate(dec) if i in tids]
+                if len(mine) != 1:
+                    bad.append(dict(kind="repetition_count", event=k, got=len(mine), expected=1, event_kind="crw", **base))
+                for t, req, d in mine:
+                    m = d["denm"]["management"]
+                    lat, lon = POSITIONS[(self.pos_idx + k) % len(POSITIONS)]
+                    if (m["eventPosition"]["latitude"], m["eventPosition"]["longitude"]) != (int(lat * 10000000), int(lon * 10000000)) or \
+                            (req.gn_area.latitude, req.gn_area.longitude) != (int(lat * 10000000), int(lon * 10000000)) or req.destination_port != 2002:
+                        bad.append(dict(kind="transport_request", event=k, index=0, event_kind="crw", port=req.destination_port,
+                                        area=[req.gn_area.latitude, req.gn_area.longitude, req.gn_area.a], **base))
+                    action_ids[k] = {(m["actionId"]["originatingStationId"], m["actionId"]["sequenceNumber"], d["header"]["stationId"])}
+                continue
             mine = [(t, req, d) for t, tid, req, d in dec if tid in tids]
             lat, lon = POSITIONS[(self.pos_idx + k) % len(POSITIONS)]
             elat, elon = int(lat * 10000000), int(lon * 10000000)
@@ -135,8 +160,8 @@ class DenHarness:
         return bad
 
 
-def mk(interval, duration, offsets, pos_idx, shared):
-    return DenHarness(interval, duration, tuple(offsets), pos_idx, "eva", shared)
+def mk(interval, duration, offsets, pos_idx, shared, kind="eva"):
+    return DenHarness(interval, duration, tuple(offsets), pos_idx, kind, shared)
 
 
 DEV = 2
@@ -147,16 +172,18 @@ def lattice_job(args):
     n = 0
     outcomes = set()
     sched_points = 0
-    for (interval, duration, offsets, pos_idx, shared) in args:
+    for cfg in args:
+        interval, duration, offsets, pos_idx, shared = cfg[:5]
+        kind = cfg[5] if len(cfg) > 5 else "eva"
         st = SC._new_stats()
         SC.ALL_DEVIATIONS = True     # equal wake-up times: every order with at most DEV departures from the default order
-        SC.explore_subtree(lambda: mk(interval, duration, offsets, pos_idx, shared), [], DEV, dict(scope=()), st, max_schedules=20000)
+        SC.explore_subtree(lambda: mk(interval, duration, offsets, pos_idx, shared, kind), [], DEV, dict(scope=()), st, max_schedules=20000)
         SC.ALL_DEVIATIONS = False
         n += st["schedules"]
         sched_points = max(sched_points, st["max_points"])
         outcomes |= {hash(o) for o in st["outcomes"]}
         for rec, ch in st["violations"]:
-            out.append((rec, dict(interval=interval, duration=duration, offsets=list(offsets), pos_idx=pos_idx, shared=shared, choices=ch)))
+            out.append((rec, dict(interval=interval, duration=duration, offsets=list(offsets), pos_idx=pos_idx, shared=shared, kind=kind, choices=ch)))
         if st["capped"]:
             out.append((dict(kind="harness_cap_hit"), {}))
     return n, out, len(outcomes), sched_points
@@ -265,6 +292,13 @@ def run(ctx):
                     continue
                 cfgs.append((i, T, offs, 0, True))
                 cfgs.append((i, T, offs, 1, False))
+    # emergency-vehicle and collision-risk events mixed (crw, eva, crw): identities must stay distinct
+    for i in intervals:
+        for T in ([100, 250, 1000] if not thorough else durations):
+            if T / i > 70:
+                continue
+            for offs in ((0, i // 2, i), (0, 0, 0), (0, i, i)):
+                cfgs.append((i, T, offs, 2, True, "mix"))
     F.coders()
     total = points = 0
     outcomes = 0
@@ -305,7 +339,7 @@ def replay(path):
     rp = rec["replay"]
     if "interval" not in rp:
         return 1
-    s, h, bad = SC.execute(lambda: mk(rp["interval"], rp["duration"], rp["offsets"], rp["pos_idx"], rp["shared"]), rp.get("choices", []),
+    s, h, bad = SC.execute(lambda: mk(rp["interval"], rp["duration"], rp["offsets"], rp["pos_idx"], rp["shared"], rp.get("kind", "eva")), rp.get("choices", []),
                            dict(scope=("denm_transmission_management.py",) if rp.get("scope") else ()))
     for t, tid, req, d in h.decoded():
         m = d["denm"]["management"]
